@@ -495,8 +495,12 @@ impl Router {
         // Remove connections from all groups and
         // discard empty group ( group with no client )
         // note: can we do this in better way?
-        self.shared_subscriptions.retain(|_, group| {
+        let graveyard = &mut self.graveyard;
+        self.shared_subscriptions.retain(|name, group| {
             group.remove_client(&client_id);
+            if group.is_empty() {
+                graveyard.update_group_cursor(name, group.cursor);
+            }
             !group.is_empty()
         });
 
@@ -769,6 +773,7 @@ impl Router {
                             if let Some(group) = self.shared_subscriptions.get_mut(filter) {
                                 group.remove_client(&client_id);
                                 if group.is_empty() {
+                                    self.graveyard.update_group_cursor(filter, group.cursor);
                                     self.shared_subscriptions.remove(filter);
                                 }
                             }
